@@ -252,6 +252,32 @@ def shards(tier, seed):
     return [('p', p) for p in range(NPARTS)] + [('direct', i) for i in range(8)] + [('x87', 0)]
 
 
+def run_sse_imm(sh):
+    """8-bit immediates of MMX/SSE instructions: unsigned, hexadecimal and two's-complement spellings, in both syntaxes."""
+    from miasmx.arch.ia32_arch import x86mnemo
+    forms = [('pshufd', 'xmm0, xmm1, %s', '$%s, %%xmm1, %%xmm0'), ('shufps', 'xmm0, xmm1, %s', '$%s, %%xmm1, %%xmm0'), ('pshufw', 'mm0, mm1, %s', '$%s, %%mm1, %%mm0'),
+             ('psrldq', 'xmm1, %s', '$%s, %%xmm1'), ('psllw', 'xmm1, %s', '$%s, %%xmm1'), ('psrlq', 'mm1, %s', '$%s, %%mm1'), ('pinsrw', 'xmm0, eax, %s', '$%s, %%eax, %%xmm0'),
+             ('pextrw', 'eax, xmm1, %s', '$%s, %%xmm1, %%eax'), ('cmpps', 'xmm0, xmm1, %s', '$%s, %%xmm1, %%xmm0'), ('shufpd', 'xmm0, xmm1, %s', '$%s, %%xmm1, %%xmm0')]
+    for mn, fi, fa in forms:
+        for v in (255, 0xe4, 128, 0x81, 127, 1):
+            base_line = '%s %s' % (mn, fi % v)
+            base, err = asm_set(x86mnemo.asm, base_line)
+            if not base:
+                sh.counters['sse_imm_base_not_assembled'] += 1
+                continue
+            neg = v - 256 if v >= 128 else None
+            variants = [('intel-hex', x86mnemo.asm, '%s %s' % (mn, fi % ('0x%x' % v))), ('att-decimal', x86mnemo.asm_att, '%s %s' % (mn, fa % v)), ('att-hex', x86mnemo.asm_att, '%s %s' % (mn, fa % ('0x%x' % v)))]
+            if neg is not None:
+                variants += [('intel-negative', x86mnemo.asm, '%s %s' % (mn, fi % neg)), ('att-negative', x86mnemo.asm_att, '%s %s' % (mn, fa % neg))]
+            for kind, f, line in variants:
+                got, err = asm_set(f, line)
+                sh.case(('sse-imm', base_line, line), True, cls='sse-imm8/%s' % kind)
+                if got != base:
+                    sh.violation('sse-imm8/%s/%s' % (kind, 'raises:' + err if got is None else ('empty' if not got else 'sets-differ')),
+                                 '%r -> %s but %r -> %s' % (base_line, sorted(c.hex() for c in base), line, sorted(c.hex() for c in got) if got is not None else err),
+                                 {'rewrite': 'intel-att' if kind.startswith('att') else 'intel', 'line': base_line, 'variant': line})
+
+
 def run_x87(sh):
     """x87 arithmetic with st(0) as destination: the one-operand and the two-operand spelling, in both syntaxes, are one
     instruction (the AT&T mnemonic reversal concerns only a st(i) destination, which is left out)."""
@@ -284,6 +310,7 @@ def run_shard(shard, tier, seed):
         return sh
     if shard[0] == 'x87':
         run_x87(sh)
+        run_sse_imm(sh)
         return sh
     run_batch(sh, list(asmgen.lines(tier, seed, shard[1], NPARTS)))
     return sh
